@@ -2,7 +2,7 @@
     ([WFx]) holds initially, is preserved by every step of a clean run, hence holds in every state
     reachable by a clean run. *)
 From TP Require Import PInv PRun PInv_P PInv_S PInv_R_base PInv_R PInv_G_Rel PInv_G PInv_Q_xdef PInv_Q PProps_B_inv PStep_A_inv PSpecStep.
-From TP Require PStep_C_drv PStep_C_xc PStep_B_inv.
+From TP Require PStep_C_drv PStep_C_xc PStep_B_inv PStep_D_base PStep_D.
 
 Record WFx (s : state) : Prop := {
   x_wf : WF s;
@@ -16,7 +16,8 @@ Record WFx (s : state) : Prop := {
   x_sorted : running_sorted s;
   x_cdrv : PStep_C_drv.Extra_C s;
   x_cgrp : PStep_B_inv.Extra_C s;
-  x_diter : PStep_B_inv.Extra_D s
+  x_diter : PStep_B_inv.Extra_D s;
+  x_d : PStep_D_base.Extra_D s
 }.
 
 Lemma WF_init c : WF (init c).
@@ -48,6 +49,7 @@ Proof.
   - apply Extra_G_init. - apply Extra_IR_init. - apply Extra_BM_init. - apply Extra_A_init.
   - apply running_sorted_init. - apply PStep_C_xc.Extra_C_init.
   - apply PStep_B_inv.Extra_C_init. - apply PStep_B_inv.Extra_D_init.
+  - apply PStep_D.Extra_D_init.
 Qed.
 
 Theorem WFx_step s l : WFx s -> clean (step s l) -> WFx (step s l).
@@ -64,6 +66,7 @@ Proof.
   - apply PStep_C_xc.Extra_C_step; auto.
   - apply PStep_B_inv.Extra_C_step; auto.
   - apply PStep_B_inv.Extra_D_step; auto.
+  - apply PStep_D.Extra_D_step; auto.
 Qed.
 
 (** Every state reachable by a clean run satisfies the invariant. *)
